@@ -19,9 +19,9 @@ def obligations(tier):
     for f in ("rules_sm", "rules_ssc"):
         if tier == "quick":
             pfxs = (0, 5) if f == "rules_sm" else (0, 4)
-            k1s = (0, 1, 2, 3, 4, 8) if f == "rules_sm" else (0, 1, 2, 3, 4, 8, 10)
+            k1s = (0, 1, 2, 3, 4, 8) if f == "rules_sm" else (0, 1, 2, 3, 4, 8, 10, 11)
         else:
-            pfxs, k1s = range(7), range(11)
+            pfxs, k1s = range(7), range(13)
         for pfx in pfxs:
             for k1 in k1s:
                 for n1 in range(4):
